@@ -137,6 +137,18 @@ CHECKS = {
   "assumed (trusted, not verified): readArchive/findHash/isPseudoVersion are side-effect free and unspecified (archive loading from .txt/.txtar/directories is NOT decided); par.Cache.Do runs the closure and returns its value (C10's contract is not re-used here: a local thin contract, type assertion .(cached) assumed); "
   "archive/zip, net/http, fmt.Fprintf, x/mod module and semver as extern contracts; byte-identity of the HTTP body on the wire and validity of the zip container are the libraries'; 'same under concurrent requests' follows only from the frame (handler writes no server state) plus C10 on paper; the commit-hash to version resolution is proved safe but not functionally specified",
   "contract-based deductive verification: call-site obligations and loop invariants over a ghost HTTP response, byte-level string concatenation for the zip entry names; z3/cvc5"),
+ "C04": ("5 C04",
+  "Contracts over the per-script state and ghost process/clean-up state. setup (fully under contract): the environment list is the literal list (WORK=<workdir> first, GOTRACEBACK=system, ..., $=$) plus at most GOCOVERDIR/GORACE plus exe=; the host environment is read only through os.Getenv with the keys PATH, GOCOVERDIR, GORACE and os.Environ is never called; "
+  "ts.env is exactly the Env.Vars handed to (and possibly extended by) Params.Setup; archive files are written with O_EXCL exactly when RequireUniqueNames is set and with the entry's data. "
+  "run: before setup, every runLine and every FailNow the defer stack already holds the background clean-up (bottom), the ts.deferred() closure and (after setup) applyScriptUpdates, in that order; "
+  "Defer builds a closure that calls f with the old chain already deferred (LIFO, old chain runs even if f panics). "
+  "Processes: exec leaves started-minus-reaped unchanged; cmdExec records a started background command in ts.background before any call that can stop the script, its wait channel is closed only after waitOrStop, which returns only after cmd.Wait returned; "
+  "waitBackground and run's clean-up closure receive from every recorded wait channel on both branches before clearing the list. "
+  "RunT's per-script closure allocates a fresh TestScript, registers the clean-up before run; the clean-up removes ts.workdir unless retention was requested and removes the shared root (and cancels) exactly when its own atomic decrement brings the count to zero; removeAll removes the tree it was asked to.",
+  "NOT decided: non-interference between parallel scripts beyond 'fresh per-script state, no os.Environ, distinct clean-up' (scripts sharing files through absolute paths, cd, or chdir of the process are outside any per-call contract); that script names and hence work directories are pairwise distinct (RunT's naming loop is not under contract); that a signalled process really dies and os.RemoveAll succeeds; the Fatalf/FailNow paths run deferred functions by runtime.Goexit (Go semantics, assumed). "
+  "assumed (trusted): user clean-up functions (run$4) do not touch ts.background; writeFile, homeEnvName/tempEnvName, abbrev, the pty helpers of exec; externs for os/exec, os, filepath, context, fmt; Params.Setup modifies only Env fields, ts.deferred, strings and files; "
+  "waitBackground is verified without its index/type-assertion safety (nosafety, assume_typeasserts)",
+  "contract-based deductive verification: call-site obligations over the symbolic defer stack (deferIndex), closure facts (isClosure/capturedInt), ghost process counters and received-channel history, loop invariants over the environment list; z3/cvc5"),
 }
 
 NOT_YET = "not yet brought under contract in this round of work (see DESIGN.md section 8 build order); no check is registered, so nothing is claimed"
